@@ -370,6 +370,8 @@ def run(facts, rep, tier):
     nfall += n_helper_fallbacks
     if nfall >= 1 or exact: rep.check(nfall >= 1, 'LO.2', 'a fallback return exists', f.shortloc(), 'no fallback path', key='LO.2|nofallback', fn=f.name)
     _selection_rules(facts, rep, f)
+    rep.rule('LO.8', 'a binary search over languageInfo / countryInfo is applied only to a column in which the table is ordered byte-wise (the order strcmp and std::string_view use), read off the table\'s initialiser')
+    _sorted_search_rules(facts, rep, f)
     _terminator_rules(facts, rep, f)
     _retention_rules(facts, rep, f)
     # LO.3: table provenance of the non-fallback assignments
@@ -434,6 +436,51 @@ def run(facts, rep, tier):
 
 
 def _is_fill(n): return False
+
+
+def _sorted_search_rules(facts, rep, f):
+    """LO.8: a binary search (lower_bound / upper_bound / equal_range / binary_search) over one of the constant tables presupposes
+    that the table is ordered by what the comparator compares, in the comparator's own order.  The tables are constants of the
+    source: their order is read off the initialiser (byte-wise, as strcmp / std::string_view compare)."""
+    scope = [f] + [g for g in facts.fns if g.file.endswith('LocaleInfo.cpp') and g is not f]
+    n_ = 0
+    for g in scope:
+        for c in g.nodes():
+            if c.k != 'call' or strip_targs(c.calleeq or '').split('::')[-1].replace('__', '').replace('_fn', '') not in ('lower_bound', 'upper_bound', 'equal_range', 'binary_search') or not (c.calleeq or '').startswith('std::'): continue
+            args = [a for a in c.ns('args') if a is not None]
+            tbls = {(x.qname or x.name or '').split('::')[-1] for a in args[:3] for x in a.walk() if x.k == 'ref' and (x.qname or x.name or '').split('::')[-1] in ('languageInfo', 'countryInfo')}
+            # iterators kept in locals: `first = std::begin(countryInfo)`
+            for a in args[:2]:
+                a0 = guards.strip_casts(a)
+                if a0 is not None and a0.k == 'ref' and a0.dk == 'local':
+                    i_ = guards.single_assignment_init(g, a0.decl)
+                    if i_ is not None: tbls |= {(x.qname or x.name or '').split('::')[-1] for x in i_.walk() if x.k == 'ref' and (x.qname or x.name or '').split('::')[-1] in ('languageInfo', 'countryInfo')}
+            if len(tbls) != 1: continue
+            tbl = next(iter(tbls)); n_ += 1
+            inst = f'{g.name.split("::")[-1]}: {strip_targs(c.calleeq).split("::")[-1]} over {tbl} searches a column that is sorted'
+            # which member does the comparator order by?
+            lam = next((a for a in args if a.k == 'lambda'), None)
+            lf = facts.lambda_fn(lam) if lam is not None else None
+            members = sorted({x.name for x in lf.nodes() if x.k == 'member' and x.field and x.name in ('code', 'value')}) if lf is not None else []
+            if len(members) != 1:
+                rep.inconclusive('LO.8', inst, c.shortloc(), 'the comparator (which column it orders by) was not recognised'); continue
+            col = members[0]
+            gl = facts.globals.get(f'{LI}::{tbl}')
+            if gl is None: rep.inconclusive('LO.8', inst, c.shortloc(), f'table {tbl} not found'); continue
+            rows = []
+            for e in Node(gl['_tu'], gl['init']).ns('args'):
+                if e is None: continue
+                vals = [guards.strip_casts(x).v for x in e.ns('args') if x is not None and guards.strip_casts(x).k == 'str']
+                if len(vals) == 2: rows.append(vals)
+            fields = [x['name'] for x in (facts.cls(strip_targs(gl.get('elemtype') or '')) or {}).get('fields', [])] or ['value', 'code']
+            ci = fields.index(col) if col in fields else (0 if col == 'value' else 1)
+            keys = [r[ci].encode('utf-8', 'surrogateescape') if isinstance(r[ci], str) else bytes(r[ci]) for r in rows]
+            bad = next((i for i in range(len(keys) - 1) if keys[i] > keys[i + 1]), None)
+            if bad is None: rep.ok('LO.8', inst + f' ({len(rows)} entries, ordered by `{col}` byte-wise)', c.shortloc())
+            else:
+                rep.violation('LO.8', inst, c.shortloc(), f'{tbl} is not ordered by `{col}` under strcmp: entry {bad} "{rows[bad][ci]}" is followed by "{rows[bad + 1][ci]}" (bytes above 0x7F and upper / lower case sort differently from the alphabetical order a reader sees); '
+                              f'the bisection skips entries that are present: a locale that names them gets the fallback instead of its table entry', key=f'LO.8|unsorted|{tbl}|{col}', fn=g.name)
+    return n_
 
 
 def table_has(facts, tbl, value, code):
